@@ -3,7 +3,7 @@ CONSTANTS
   Sessions <- P4
   Graphs <- Iso4
   Depths <- D13
-  Skips <- SmallSkips4
+  Skips <- TinySkips4
   Thoroughs <- OnlyThorough
   KeepHist = FALSE
   Dev_M1_DepthOffByOne = FALSE
